@@ -366,36 +366,36 @@ fn pq_async_cases(d: &Data, wide: &Data, out: &mut Vec<WCase>) {
 
 // ------------------------------------------------------------------- CSV
 
+fn csv_run(d: &Data, s: FaultSink, a: &Api, header: bool, fin: &str) {
+    let Some(mut w) = a.call("new", || fine(arrow_csv::WriterBuilder::new().with_header(header).build(s.clone()))) else { return };
+    for b in &d.batches {
+        if a.call("write", || w.write(b)).is_none() {
+            break;
+        }
+    }
+    if a.panicked() {
+        return;
+    }
+    match fin {
+        "into_inner" => {
+            a.take("into_inner", || {
+                w.into_inner();
+            });
+        }
+        "close" => {
+            a.call("close", || RecordBatchWriter::close(w));
+        }
+        _ => drop(w),
+    }
+}
+
 fn csv_cases(d: &Data, out: &mut Vec<WCase>) {
     for variant in ["into_inner", "close", "drop"] {
         let dd = d.clone();
-        out.push(case(
-            "csv",
-            variant,
-            Box::new(move |s, a| {
-                let Some(mut w) = a.call("new", || fine(arrow_csv::Writer::new(s.clone()))) else { return };
-                for b in &dd.batches {
-                    if a.call("write", || w.write(b)).is_none() {
-                        break;
-                    }
-                }
-                if a.panicked() {
-                    return;
-                }
-                match variant {
-                    "into_inner" => {
-                        a.take("into_inner", || {
-                            w.into_inner();
-                        });
-                    }
-                    "close" => {
-                        a.call("close", || RecordBatchWriter::close(w));
-                    }
-                    _ => drop(w),
-                }
-            }),
-        ));
+        out.push(case("csv", variant, Box::new(move |s, a| csv_run(&dd, s, a, true, variant))));
     }
+    let dd = d.clone();
+    out.push(case("csv", "noheader/close", Box::new(move |s, a| csv_run(&dd, s, a, false, "close"))));
 }
 
 // ------------------------------------------------------------------ JSON
@@ -523,6 +523,42 @@ fn avro_cases(d: &Data, out: &mut Vec<WCase>) {
     out.push(case("avro_soe", "buf64/finish+into_inner", Box::new(move |s, a| avro_script!(AvroStreamWriter, BufWriter::with_capacity(64, s.clone()), &dd, a, no_marker))));
 }
 
+/// every writer with a zero-row batch first / in the middle / last / as the only batch, and with no write
+/// at all before the terminating call
+fn empty_batch_cases(inp: &Inputs, out: &mut Vec<WCase>) {
+    use arrow_ipc::writer::{FileWriter, StreamWriter};
+    fn name(e: &str, script: &str) -> &'static str {
+        Box::leak(format!("{e}/{script}").into_boxed_str())
+    }
+    let sec = |c: WCase| WCase { primary: false, ..c };
+    for (e, d) in inp.bin_dict.with_empties() {
+        let dd = d.clone();
+        out.push(sec(case("ipc_file", name(e, "finish"), Box::new(move |s, a| ipc_script!(FileWriter, FileWriter::try_new(s.clone(), &dd.schema), &dd, a, false, Fin::Finish, no_after)))));
+        let dd = d.clone();
+        out.push(sec(case("ipc_stream", name(e, "finish"), Box::new(move |s, a| ipc_script!(StreamWriter, StreamWriter::try_new(s.clone(), &dd.schema), &dd, a, false, Fin::Finish, no_after)))));
+        let dd = d.clone();
+        out.push(sec(case("parquet", name(e, "close"), Box::new(move |s, a| pq_run(&dd, s, a, 4, false, PqFin::Close)))));
+        let dd = d.clone();
+        out.push(sec(WCase { whole_writes: true, ..case("pq_async", name(e, "close"), Box::new(move |s, a| pq_async_fin(&dd, s, a, 4, false, 0))) }));
+    }
+    for (e, d) in inp.text.with_empties() {
+        for (script, header, fin) in [("close", true, "close"), ("drop", true, "drop"), ("into_inner", true, "into_inner"), ("noheader/close", false, "close")] {
+            let dd = d.clone();
+            out.push(sec(case("csv", name(e, script), Box::new(move |s, a| csv_run(&dd, s, a, header, fin)))));
+        }
+        let dd = d.clone();
+        out.push(sec(case("json_lines", name(e, "finish"), Box::new(move |s, a| json_script!(LineDelimitedWriter, s.clone(), &dd, a, Fin::Finish, no_after)))));
+        let dd = d.clone();
+        out.push(sec(case("json_array", name(e, "finish"), Box::new(move |s, a| json_script!(ArrayWriter, s.clone(), &dd, a, Fin::Finish, no_after)))));
+    }
+    for (e, d) in inp.avro.with_empties() {
+        let dd = d.clone();
+        out.push(sec(WCase { random_sync: true, ..case("avro_ocf", name(e, "finish+into_inner"), Box::new(move |s, a| avro_script!(AvroWriter, s.clone(), &dd, a, ocf_marker))) }));
+        let dd = d.clone();
+        out.push(sec(case("avro_soe", name(e, "finish+into_inner"), Box::new(move |s, a| avro_script!(AvroStreamWriter, s.clone(), &dd, a, no_marker)))));
+    }
+}
+
 pub struct Inputs {
     pub bin_dict: Data,
     pub wide: Data,
@@ -538,6 +574,7 @@ pub fn cases(inp: &Inputs) -> Vec<WCase> {
     csv_cases(&inp.text, &mut out);
     json_cases(&inp.text, &mut out);
     avro_cases(&inp.avro, &mut out);
+    empty_batch_cases(inp, &mut out);
     // what was accepted from a session that ended with a successful terminating call is read back with the
     // format's reader
     for c in out.iter_mut() {
@@ -545,12 +582,16 @@ pub fn cases(inp: &Inputs) -> Vec<WCase> {
             "ipc_file" | "ipc_stream" => (c.fmt, &inp.bin_dict),
             "parquet" | "pq_async" if c.variant.starts_with("wide") => ("parquet", &inp.wide),
             "parquet" | "pq_async" => ("parquet", &inp.bin_dict),
+            // (the read-back reader expects the header line)
+            "csv" if c.variant.contains("noheader") => continue,
             "csv" => ("csv", &inp.text),
             "json_lines" => ("json_lines", &inp.text),
             "avro_ocf" => ("avro_ocf", &inp.avro),
             _ => continue,
         };
-        c.read_back = Some((fmt, flat_rows(d)));
+        // (zero-row batches add no rows; the scripts without a non-empty batch wrote none)
+        let rows = if c.variant.starts_with("empty-only") || c.variant.starts_with("no-write") { vec![] } else { flat_rows(d) };
+        c.read_back = Some((fmt, rows));
     }
     out
 }
